@@ -14,6 +14,18 @@ import (
 // (one which does not satisfy the secp256k1 curve equation).
 var ErrPointNotOnCurve = errors.New("failed to deserialize point not on secp256k1 curve")
 
+// curveYValues returns the even and the odd y-coordinate of the secp256k1 point whose
+// x-coordinate is x, or two nil values if there is no such point. ekliptic.Weierstrass reports
+// a zero root for x = 0, and (0, 0) is how ekliptic represents the point at infinity, which
+// has no serialization: a zero root is never the coordinate of a point on the curve.
+func curveYValues(x *big.Int) (evenY, oddY *big.Int) {
+	evenY, oddY = ekliptic.Weierstrass(x)
+	if evenY == nil || oddY == nil || evenY.Sign() == 0 || oddY.Sign() == 0 {
+		return nil, nil
+	}
+	return evenY, oddY
+}
+
 // DeserializePoint decodes the given serialized curve point, which should either be
 // length 65 (uncompressed), 33 (compressed), or 32 (BIP-340 schnorr).
 // Returns ErrPointNotOnCurve if the resulting point is not on the secp256k1 curve.
@@ -26,14 +38,14 @@ func DeserializePoint(serialized []byte) (x, y *big.Int, err error) {
 		x = new(big.Int).SetBytes(serialized[1:33])
 		y = new(big.Int).SetBytes(serialized[33:])
 
-		evenY, oddY := ekliptic.Weierstrass(x)
+		evenY, oddY := curveYValues(x)
 		if evenY == nil || oddY == nil || !(equal(y, evenY) || equal(y, oddY)) {
 			return nil, nil, ErrPointNotOnCurve
 		}
 
 	case constants.PublicKeyCompressedLength:
 		x = new(big.Int).SetBytes(serialized[1:])
-		evenY, oddY := ekliptic.Weierstrass(x)
+		evenY, oddY := curveYValues(x)
 		if evenY == nil || oddY == nil {
 			return nil, nil, ErrPointNotOnCurve
 		}
@@ -49,7 +61,7 @@ func DeserializePoint(serialized []byte) (x, y *big.Int, err error) {
 
 	case constants.PublicKeySchnorrLength:
 		x = new(big.Int).SetBytes(serialized)
-		y, _ = ekliptic.Weierstrass(x)
+		y, _ = curveYValues(x)
 		if y == nil {
 			return nil, nil, ErrPointNotOnCurve
 		}
